@@ -308,6 +308,63 @@ def install():
         return orig_chain(I, *its)
     _models.BUILTIN_MODELS[itertools.chain] = m_chain
 
+    orig_iterate = Interp.iterate
+
+    def iterate(self, v):
+        if amap_of(self, v) is not None or isinstance(v, (ASet, AItems, AChain)):
+            raise Unsupported("iteration over an abstract collection outside a `for` loop / key comprehension")
+        return orig_iterate(self, v)
+    Interp.iterate = iterate
+
+    orig_comp = Interp.comp
+
+    def comp(self, e, f, kind="list"):
+        if len(e.generators) == 1 and kind != "dict":
+            g0 = e.generators[0]
+            src = self.eval(g0.iter, f)
+            mem = None
+            if isinstance(src, ASet):
+                mem = src.mem
+            elif amap_of(self, src) is not None:
+                mem = amap_of(self, src).has
+            if mem is not None:
+                # [k for k in <abstract keys> if <conditions on k>]  ->  the abstract set of the selected keys
+                if self.generic is not None:
+                    raise Unsupported("comprehension over an abstract collection inside a generic iteration")
+                self.loop_n = getattr(self, "loop_n", 0) + 1
+                kk = z3.Const(f"compkey!{self.loop_n}", _keysort())
+                fr = f.child()
+                self.generic = Generic(kk)
+                self.pc.append(mem(kk))
+                try:
+                    self.assign(g0.target, SKey(kk), fr)
+                    conds = []
+                    for c in g0.ifs:
+                        v = self.eval(c, fr)
+                        v = concretize(v) if is_sym(v) else v
+                        if isinstance(v, bool):
+                            conds.append(z3.BoolVal(v))
+                        elif isinstance(v, SBool):
+                            conds.append(v.t)
+                        else:
+                            raise Unsupported("comprehension condition over an abstract key is not boolean")
+                    elt = self.eval(e.elt, fr)
+                finally:
+                    self.pc.pop()
+                    self.generic = None
+                if not (isinstance(elt, SKey) and elt.t.get_id() == kk.get_id()):
+                    raise Unsupported("comprehension over abstract keys must yield the key itself")
+                cond = z3.And(*conds) if conds else z3.BoolVal(True)
+                return ASet(lambda q, mem=mem, cond=cond, kk=kk: z3.And(mem(q), z3.substitute(cond, (kk, q))))
+            f.env["__comp_iter__"] = src
+            e2 = ast.copy_location(type(e)(**{k: getattr(e, k) for k in e._fields}), e)
+            g2 = ast.comprehension(target=g0.target, iter=ast.copy_location(ast.Name(id="__comp_iter__", ctx=ast.Load()), e),
+                                   ifs=g0.ifs, is_async=0)
+            e2.generators = [g2]
+            return orig_comp(self, e2, f, kind)
+        return orig_comp(self, e, f, kind)
+    Interp.comp = comp
+
     orig_truthy = Interp.truthy
 
     def truthy(self, v):
